@@ -36,11 +36,17 @@ func TestDrive(t *testing.T) {
 			seed := *fSeed*1_000_003 + int64(*fShard)*10_007 + int64(i)
 			r := rand.New(rand.NewSource(seed))
 			big := *fBig > 0 && i%*fBig == *fBig-1
-			cfg := DefaultCfg(r, *fFamily, big)
+			// two of three rewards histories stay clear of the root causes of the known reward findings (slashes under
+			// accrued rewards, 18-digit resolution at huge stakes, take-rate deductions) so that C12/C13 are judged unmasked
+			clean := *fFamily == "rewards" && i%3 != 2
+			if clean {
+				big = false
+			}
+			cfg := DefaultCfg(r, *fFamily, big, clean)
 			w := NewWorld(t, cfg)
 			pn, every := familyProbes(*fFamily)
 			s := Schedule{Name: fmt.Sprintf("%s/seed%d/shard%d/%d", *fFamily, *fSeed, *fShard, i), Family: *fFamily, Cfg: cfg, Probes: pn, Every: every, Det: *fDet}
-			g := &Gen{w: w, r: r, family: *fFamily, big: big}
+			g := &Gen{w: w, r: r, family: *fFamily, big: big, clean: clean}
 			RunSchedule(w, &s, tw, g, *fSteps)
 			scheds = append(scheds, s)
 		}
